@@ -222,8 +222,12 @@ func (l *Ledger) Finish(p *Prog, tier string, seed int, start time.Time, verifDi
 		}
 	}
 	sort.Strings(stale)
+	// An entry that matches nothing suppresses nothing on this tree: it says that the site it was
+	// written for has been proved, moved or rewritten, which is not a statement about the property.
+	// It is reported (and counted in the evidence) so that the list is pruned, but it does not fail
+	// the check: failing here turned every refactoring of an audited site into an alarm.
 	for _, k := range stale {
-		l.Undecide("ledger.stale-residue", "", k, "", "residue entry matches no unproved site on this tree (stale suppression); remove it or re-audit")
+		l.Add(Ob{Rule: "ledger.unused-residue", Key: k, Status: Info, Why: "residue entry matches no unproved site on this tree (the site was proved, moved or rewritten); it suppresses nothing here"})
 	}
 	counts := map[Status]int{}
 	perRule := map[string]map[Status]int{}
